@@ -152,7 +152,10 @@ def main():
                dict(name='extension:retry-helpers', path='/verif/checks/x02.py', serves_properties=[],
                     kind_free_text='specification coverage beyond the listed properties: specs/Retry.tla '
                     '(openhtf.util.timeouts loop_until_timeout_or_valid / retry_until_valid_or_limit_reached); '
-                    './check X02; evidence in evidence_extra/X02.json')],
+                    './check X02; evidence in evidence_extra/X02.json'),
+               dict(name='extension:group-algebra', path='/verif/checks/x03.py', serves_properties=[],
+                    kind_free_text='specification coverage beyond the listed properties: specs/GroupAlgebra.tla '
+                    '(PhaseGroup construction, with_context, combine, wrap); ./check X03; evidence in evidence_extra/X03.json')],
       checks=checks,
       not_applicable=na,
       notes='All checks: ./check <ID> --tier quick|thorough. Exit 0 ok, 1 violation, 2 machinery failure.')
